@@ -5,10 +5,13 @@
 //
 // Case line:
 //
-//	(case n (kind K) (nt b) (mode pipe|direct) (cec b) (ren b) (items ...) (obs ...))
+//	(case n (kind K) (nt b) (mode pipe|scale|direct) (cec b) (ren b) (hib d) (pr k) (items ...) (obs ...))
 //
 // pipe:   items = (c id (p parent-ids...) author tick (f name (bytes...))...)   declared commits
+// scale:  items = (lin n) | (dia n v) | (comb n) | (octo n p)   segments of a LONG generated history, with
+//         fields (au a) (tk t): a authors (0 = every commit its own), t commits per tick; see buildShape
 // direct: items = (ins name n fin) | (del name n fin) | (mod name (e n)(i n)(d n)...)   with a field (merge b)
+// hib = Pipeline.HibernationDistance, pr = 1: Pipeline.PrintActions, 2: Pipeline.DumpPlan, 3: both (absent = 0)
 package main
 
 import (
@@ -16,6 +19,7 @@ import (
 	"fmt"
 	"io/ioutil"
 	"log"
+	"os"
 	"sort"
 	"strings"
 	"time"
@@ -43,6 +47,7 @@ import (
 type fileIn struct {
 	Name string
 	Data []byte
+	Exec bool // mode 0100755 instead of 0100644
 }
 
 type commitIn struct {
@@ -56,7 +61,11 @@ type commitIn struct {
 func (c commitIn) sx() Sx {
 	items := []Sx{A("c"), I(c.ID), T("p", Ints(c.Parents).List...), I(c.Author), I(c.Tick)}
 	for _, f := range c.Files {
-		items = append(items, T("f", A(f.Name), Bytes(f.Data)))
+		if f.Exec {
+			items = append(items, T("f", A(f.Name), Bytes(f.Data), A("x")))
+		} else {
+			items = append(items, T("f", A(f.Name), Bytes(f.Data)))
+		}
 	}
 	return L(items...)
 }
@@ -71,7 +80,7 @@ func parseCommit(s Sx) commitIn {
 		for _, b := range f.List[2].List {
 			data = append(data, byte(b.Int()))
 		}
-		c.Files = append(c.Files, fileIn{f.List[1].Atom, data})
+		c.Files = append(c.Files, fileIn{Name: f.List[1].Atom, Data: data, Exec: len(f.List) > 3})
 	}
 	return c
 }
@@ -92,7 +101,11 @@ func toSpecs(cs []commitIn) []synth.CommitSpec {
 			}
 		}
 		for _, f := range c.Files {
-			spec.Files = append(spec.Files, synth.FileSpec{Path: f.Name, Data: f.Data})
+			fs := synth.FileSpec{Path: f.Name, Data: f.Data}
+			if f.Exec {
+				fs.Mode = filemode.Executable
+			}
+			spec.Files = append(spec.Files, fs)
 		}
 		specs = append(specs, spec)
 		if _, dup := pos[c.ID]; !dup {
@@ -117,7 +130,7 @@ func fromHist(h *synth.Hist) []commitIn {
 		ci := commitIn{ID: c, Parents: append([]int{}, h.Parents[c]...), Author: h.Author[c], Tick: h.Tick[c]}
 		for _, p := range h.Paths {
 			if txt, ok := h.Content(c, p); ok {
-				ci.Files = append(ci.Files, fileIn{rename(p), []byte(txt)})
+				ci.Files = append(ci.Files, fileIn{Name: rename(p), Data: []byte(txt)})
 			}
 		}
 		cs = append(cs, ci)
@@ -138,7 +151,7 @@ func fromLinear(steps []synth.LinearStep, authors func() int) []commitIn {
 		}
 		sort.Strings(names)
 		for _, k := range names {
-			ci.Files = append(ci.Files, fileIn{rename(k), s.Files[k]})
+			ci.Files = append(ci.Files, fileIn{Name: rename(k), Data: s.Files[k]})
 		}
 		cs = append(cs, ci)
 	}
@@ -382,14 +395,17 @@ func b2i(b bool) int {
 // (f name-id old oldbin new newbin ins del), absent = -1; ins/del = those of a minimal line diff.
 func truthDiff(specs []synth.CommitSpec, parent, c int, names *table) []Sx {
 	old := map[string][]byte{}
+	oldMode, curMode := map[string]filemode.FileMode{}, map[string]filemode.FileMode{}
 	if parent >= 0 {
 		for _, f := range specs[parent].Files {
 			old[f.Path] = f.Data
+			oldMode[f.Path] = f.Mode
 		}
 	}
 	cur := map[string][]byte{}
 	for _, f := range specs[c].Files {
 		cur[f.Path] = f.Data
+		curMode[f.Path] = f.Mode
 	}
 	all := map[string]bool{}
 	for k := range old {
@@ -407,7 +423,8 @@ func truthDiff(specs []synth.CommitSpec, parent, c int, names *table) []Sx {
 	for _, k := range keys {
 		o, oin := old[k]
 		n, nin := cur[k]
-		if oin && nin && string(o) == string(n) {
+		if oin && nin && string(o) == string(n) && oldMode[k] == curMode[k] {
+			// same content, same mode (a change of the mode alone IS a change of the file: zero lines inserted / deleted)
 			continue
 		}
 		ol, nl, ins, del := -1, -1, -1, -1
@@ -432,12 +449,33 @@ func truthDiff(specs []synth.CommitSpec, parent, c int, names *table) []Sx {
 // ---------------------------------------------------------------------------------------------
 // one pipeline case
 
-func runPipe(c *Config, kind string, cec, ren bool, cs []commitIn) {
-	var items []Sx
-	for _, ci := range cs {
-		items = append(items, ci.sx())
+// pipeOpts are the options of one pipeline case.
+type pipeOpts struct {
+	cec, ren bool
+	hib      int   // Pipeline.HibernationDistance
+	pr       int   // bit 0: Pipeline.PrintActions, bit 1: Pipeline.DumpPlan
+	scale    *shape // non-nil: the commits were generated from these segments (mode scale)
+}
+
+const (
+	factHibernationDistance = "Pipeline.HibernationDistance" // core.ConfigPipelineHibernationDistance
+	factPrintActions        = "Pipeline.PrintActions"        // core.ConfigPipelinePrintActions
+	factDumpPlan            = "Pipeline.DumpPlan"            // core.ConfigPipelineDumpPlan
+)
+
+func runPipe(c *Config, kind string, o pipeOpts, cs []commitIn) {
+	cec, ren := o.cec, o.ren
+	var head []Sx
+	if o.scale != nil {
+		head = []Sx{T("kind", A(kind)), T("nt", B(len(cs) >= 3)), T("mode", A("scale")), T("cec", B(cec)), T("ren", B(ren)), T("hib", I(o.hib)), T("pr", I(o.pr)),
+			T("au", I(o.scale.au)), T("tk", I(o.scale.tk)), T("items", o.scale.sx()...)}
+	} else {
+		var items []Sx
+		for _, ci := range cs {
+			items = append(items, ci.sx())
+		}
+		head = []Sx{T("kind", A(kind)), T("nt", B(len(cs) >= 3)), T("mode", A("pipe")), T("cec", B(cec)), T("ren", B(ren)), T("hib", I(o.hib)), T("pr", I(o.pr)), T("items", items...)}
 	}
-	head := []Sx{T("kind", A(kind)), T("nt", B(len(cs) >= 3)), T("mode", A("pipe")), T("cec", B(cec)), T("ren", B(ren)), T("items", items...)}
 	specs := toSpecs(cs)
 	if len(specs) == 0 {
 		c.Emit(append(head, T("obs", T("empty")))...)
@@ -472,7 +510,29 @@ func runPipe(c *Config, kind string, cec, ren bool, cs []commitIn) {
 			// the command line default; without the fact the threshold stays 0 (everything big enough pairs up)
 			facts[api.ConfigRenameAnalysisSimilarityThreshold] = 80
 		}
+		if o.hib > 0 || c.N%2 == 0 {
+			// distance 0 is also given explicitly in half of the cases (fact present / absent)
+			facts[factHibernationDistance] = o.hib
+		}
+		if o.pr&1 != 0 {
+			facts[factPrintActions] = true
+		}
+		if o.pr&2 != 0 {
+			facts[factDumpPlan] = true
+		}
+		if o.pr != 0 {
+			// the plan / the actions are printed to os.Stderr at call time; the harness prints nothing but the trace
+			if null, err := os.OpenFile(os.DevNull, os.O_WRONLY, 0); err == nil {
+				saved := os.Stderr
+				os.Stderr = null
+				defer func() { os.Stderr = saved; null.Close() }()
+			}
+		}
 		if runErr = p.Initialize(facts); runErr != nil {
+			return
+		}
+		if p.HibernationDistance != o.hib {
+			runErr = fmt.Errorf("hibernation distance not taken")
 			return
 		}
 		for _, it := range p.VerifItems() {
@@ -496,9 +556,15 @@ func runPipe(c *Config, kind string, cec, ren bool, cs []commitIn) {
 		return
 	}
 
-	// the plan of a separate planner call, for information only (the planner is not deterministic across calls)
-	plan := verifapi.PrepareRunPlan(commits, 0)
+	// the plan of a separate planner call, for information only (the planner is not deterministic across calls);
+	// not for the long histories
+	var plan []verifapi.VerifAction
 	var planSx []Sx
+	if o.scale != nil {
+		planSx = append(planSx, A("skipped"))
+	} else {
+		plan = verifapi.PrepareRunPlan(commits, 0)
+	}
 	for _, a := range plan {
 		switch a.Action {
 		case verifapi.ActionCommit:
@@ -615,6 +681,203 @@ func changeSx(ch recChange, names, langs *table) Sx {
 		ds = append(ds, T([]string{"e", "i", "d", "x"}[d[0]], I(d[1])))
 	}
 	return T("mod", I(names.id(ch.name)), I(langs.id(ch.lang)), I(names.id(ch.from)), B(ch.hasFD), I(ch.old), I(ch.new), T("ds", ds...))
+}
+
+
+// ---------------------------------------------------------------------------------------------
+// long histories (mode scale): a handful of segment kinds, generated deterministically
+
+// seg is one segment of a long history.
+//
+//	(lin n)     n commits in a line, each modifies one of three files
+//	(dia n v)   n diamonds: two children A, B of the tip and their merge.  v = 0: A and B change different files, the
+//	            merge adds nothing (it differs from both parents); 1: the merge also changes a file of its own;
+//	            2: B repeats the tree of the tip (an empty commit) and the merge equals A; 3: 0, 1, 2 in turn
+//	(comb n)    n trunk commits, each with a side commit ("tooth") that stays alive; then the n teeth are merged
+//	            into the trunk one after the other: n branches alive at the same time, idle for up to 2n steps
+//	(octo n p)  n sections: p children of the tip (each changes its own file) and their p-parent merge
+type seg struct {
+	kind string
+	n, p int
+}
+
+type shape struct {
+	au, tk int // authors (0 = every commit its own author), commits per tick
+	segs   []seg
+}
+
+func (sh *shape) sx() []Sx {
+	var r []Sx
+	for _, g := range sh.segs {
+		switch g.kind {
+		case "dia", "octo":
+			r = append(r, T(g.kind, I(g.n), I(g.p)))
+		default:
+			r = append(r, T(g.kind, I(g.n)))
+		}
+	}
+	return r
+}
+
+func parseShape(cs Sx, items Sx) *shape {
+	sh := &shape{au: 3, tk: 50}
+	if f, ok := cs.Field("au"); ok {
+		sh.au = f.List[1].Int()
+	}
+	if f, ok := cs.Field("tk"); ok {
+		sh.tk = f.List[1].Int()
+	}
+	if sh.tk < 1 {
+		sh.tk = 1
+	}
+	for _, it := range items.Args() {
+		g := seg{kind: it.Tag(), n: it.List[1].Int()}
+		if len(it.List) > 2 {
+			g.p = it.List[2].Int()
+		}
+		sh.segs = append(sh.segs, g)
+	}
+	return sh
+}
+
+// segsOf splits n into powers of two, largest first, and a unit, so that the greedy shrinker (which drops items) can
+// reduce a failing long case to a small number of elements that still fails.
+func segsOf(kind string, n, p int) []seg {
+	var r []seg
+	if n < 1 {
+		return r
+	}
+	// n = powers of two of n-1, plus one unit segment: a threshold at 2^k + 1 shrinks to (2^k) (1)
+	for b := 1 << 20; b > 0; b >>= 1 {
+		if (n-1)&b != 0 {
+			r = append(r, seg{kind, b, p})
+		}
+	}
+	return append(r, seg{kind, 1, p})
+}
+
+// buildShape generates the declared commits of a long history.
+func buildShape(sh *shape) []commitIn {
+	var cs []commitIn
+	trees := []map[string]string{} // the tree of every commit (maps are shared, never modified after creation)
+	body := func(name string, id int) string {
+		var sb strings.Builder
+		fmt.Fprintf(&sb, "h-%s\n", name)
+		for j := 0; j <= id%3; j++ {
+			fmt.Fprintf(&sb, "v%d-%d\n", id, j)
+		}
+		sb.WriteString("t\n")
+		return sb.String()
+	}
+	with := func(base map[string]string, kv ...string) map[string]string {
+		m := make(map[string]string, len(base)+1)
+		for k, v := range base {
+			m[k] = v
+		}
+		for i := 0; i+1 < len(kv); i += 2 {
+			m[kv[i]] = kv[i+1]
+		}
+		return m
+	}
+	add := func(parents []int, tree map[string]string) int {
+		id := len(cs)
+		au := id
+		if sh.au > 0 {
+			au = id % sh.au
+		}
+		ci := commitIn{ID: id, Parents: parents, Author: au, Tick: id / sh.tk}
+		names := make([]string, 0, len(tree))
+		for k := range tree {
+			names = append(names, k)
+		}
+		sort.Strings(names)
+		for _, k := range names {
+			ci.Files = append(ci.Files, fileIn{Name: k, Data: []byte(tree[k])})
+		}
+		cs = append(cs, ci)
+		trees = append(trees, tree)
+		return id
+	}
+	// touch makes a child of parent p that rewrites file name
+	touch := func(p int, name string) int {
+		return add([]int{p}, with(trees[p], name, body(name, len(cs))))
+	}
+	tip := add(nil, map[string]string{"r.md": body("r.md", 0)})
+	for _, g := range sh.segs {
+		switch g.kind {
+		case "lin":
+			for i := 0; i < g.n; i++ {
+				tip = touch(tip, []string{"l0.go", "l1.py", "l2"}[len(cs)%3])
+			}
+		case "dia":
+			for i := 0; i < g.n; i++ {
+				v := g.p
+				if v == 3 {
+					v = i % 3
+				}
+				an, bn := []string{"a0.go", "a1.go"}[i%2], []string{"b0.py", "b1.py"}[(i/2)%2]
+				a := touch(tip, an)
+				var b int
+				if v == 2 {
+					b = add([]int{tip}, trees[tip])
+				} else {
+					b = touch(tip, bn)
+				}
+				mt := trees[a]
+				if v != 2 {
+					mt = with(mt, bn, trees[b][bn])
+				}
+				if v == 1 {
+					mt = with(mt, "m.md", body("m.md", len(cs)))
+				}
+				ps := []int{a, b}
+				if i%2 == 1 {
+					ps = []int{b, a}
+				}
+				tip = add(ps, mt)
+			}
+		case "comb":
+			teeth := make([]int, g.n)
+			names := make([]string, g.n)
+			for i := 0; i < g.n; i++ {
+				tip = touch(tip, "t.go")
+				names[i] = fmt.Sprintf("s%d.py", i%8)
+				teeth[i] = touch(tip, names[i])
+			}
+			for i := 0; i < g.n; i++ {
+				tip = add([]int{tip, teeth[i]}, with(trees[tip], names[i], trees[teeth[i]][names[i]]))
+			}
+		case "octo":
+			p := g.p
+			if p < 2 {
+				p = 2
+			}
+			for i := 0; i < g.n; i++ {
+				arms := make([]int, p)
+				mt := trees[tip]
+				for a := 0; a < p; a++ {
+					name := fmt.Sprintf("o%d.go", a)
+					arms[a] = touch(tip, name)
+					if (a+i)%3 == 0 {
+						// a second commit on this arm
+						arms[a] = touch(arms[a], name)
+					}
+					mt = with(mt, name, trees[arms[a]][name])
+				}
+				ps := make([]int, p)
+				for a := 0; a < p; a++ {
+					ps[a] = arms[(a+i)%p]
+				}
+				tip = add(ps, mt)
+			}
+		}
+	}
+	return cs
+}
+
+func runScale(c *Config, kind string, o pipeOpts, sh *shape) {
+	o.scale = sh
+	runPipe(c, kind, o, buildShape(sh))
 }
 
 // ---------------------------------------------------------------------------------------------
@@ -857,7 +1120,7 @@ func exhaustiveScripts(c *Config, maxLen int, counts []int, chunk int) {
 // exhaustiveDags enumerates every history of n commits in which commit i picks any set of at most three
 // earlier commits as parents (none = a further root) and either repeats the tree of its first parent
 // (empty tree for a root) or has content of its own; both settings of ConsiderEmptyCommits.
-func exhaustiveDags(c *Config, n int) {
+func exhaustiveDags(c *Config, n int, hib int) {
 	var subsets func(i int) [][]int
 	subsets = func(i int) [][]int {
 		var res [][]int
@@ -878,6 +1141,12 @@ func exhaustiveDags(c *Config, n int) {
 	var rec func(i int)
 	rec = func(i int) {
 		if i == n {
+			wide := false
+			for _, ps := range parents {
+				if len(ps) >= 3 {
+					wide = true
+				}
+			}
 			for bits := 0; bits < 1<<uint(n); bits++ {
 				cs := make([]commitIn, n)
 				for j := 0; j < n; j++ {
@@ -887,16 +1156,24 @@ func exhaustiveDags(c *Config, n int) {
 						for l := 0; l <= j; l++ {
 							fmt.Fprintf(&sb, "x%d-%d\n", j, l%2)
 						}
-						cs[j].Files = []fileIn{{"a.go", []byte(sb.String())}}
+						cs[j].Files = []fileIn{{Name: "a.go", Data: []byte(sb.String())}}
 						if j%3 == 2 {
-							cs[j].Files = append(cs[j].Files, fileIn{"b.py", []byte(fmt.Sprintf("y%d\n", j))})
+							cs[j].Files = append(cs[j].Files, fileIn{Name: "b.py", Data: []byte(fmt.Sprintf("y%d\n", j))})
 						}
 					} else if len(parents[j]) > 0 {
 						cs[j].Files = append([]fileIn{}, cs[parents[j][0]].Files...)
 					}
 				}
 				for _, cec := range []bool{false, true} {
-					runPipe(c, fmt.Sprintf("dags-exhaustive-%d", n), cec, true, cs)
+					if hib > 0 {
+						// under hibernation only the histories with a commit of three parents, one setting each
+						if !wide || cec != (bits%2 == 0) {
+							continue
+						}
+						runPipe(c, fmt.Sprintf("dags-exhaustive-%d-hib", n), pipeOpts{cec: cec, ren: true, hib: hib}, cs)
+						continue
+					}
+					runPipe(c, fmt.Sprintf("dags-exhaustive-%d", n), pipeOpts{cec: cec, ren: true}, cs)
 				}
 			}
 			return
@@ -909,8 +1186,96 @@ func exhaustiveDags(c *Config, n int) {
 	rec(0)
 }
 
+// skewTicks makes the commit times non-monotone / equal: the tick of a replay then depends on the branch it runs on
+// (TicksSinceStart never lets the tick of a branch decrease), so the replays of one merge can land in different ticks.
+func skewTicks(c *Config, cs []commitIn) {
+	max := 1
+	for _, ci := range cs {
+		if ci.Tick > max {
+			max = ci.Tick
+		}
+	}
+	switch c.Rng.Intn(3) {
+	case 0:
+		for i := range cs {
+			cs[i].Tick = c.Rng.Intn(max + 1)
+		}
+	case 1:
+		for i := range cs {
+			cs[i].Tick = max - cs[i].Tick
+		}
+	default:
+		for i := range cs {
+			cs[i].Tick = 0
+		}
+	}
+}
+
+// genShape draws a medium-size history from the segment kinds of the long histories.
+func genShape(c *Config) *shape {
+	sh := &shape{au: c.Rng.Intn(4), tk: 1 + c.Rng.Intn(6)}
+	for k := 1 + c.Rng.Intn(4); k > 0; k-- {
+		switch c.Rng.Intn(5) {
+		case 0:
+			sh.segs = append(sh.segs, seg{"lin", 1 + c.Rng.Intn(4), 0})
+		case 1:
+			sh.segs = append(sh.segs, seg{"dia", 1 + c.Rng.Intn(3), c.Rng.Intn(4)})
+		case 2:
+			sh.segs = append(sh.segs, seg{"comb", 1 + c.Rng.Intn(5), 0})
+		default:
+			sh.segs = append(sh.segs, seg{"octo", 1 + c.Rng.Intn(2), 3 + c.Rng.Intn(5)})
+		}
+	}
+	return sh
+}
+
+// flipModes makes one file executable in the commits numbered k..k2-1: a mode change, alone or together with a
+// change of the content (the tree entry changes, the blob possibly not).
+func flipModes(c *Config, cs []commitIn) {
+	if len(cs) < 2 {
+		return
+	}
+	var names []string
+	seen := map[string]bool{}
+	for _, ci := range cs {
+		for _, f := range ci.Files {
+			if !seen[f.Name] {
+				seen[f.Name] = true
+				names = append(names, f.Name)
+			}
+		}
+	}
+	if len(names) == 0 {
+		return
+	}
+	name := names[c.Rng.Intn(len(names))]
+	k := 1 + c.Rng.Intn(len(cs)-1)
+	k2 := k + 1 + c.Rng.Intn(len(cs))
+	for i := k; i < k2 && i < len(cs); i++ {
+		for j := range cs[i].Files {
+			if cs[i].Files[j].Name == name {
+				// the slice may be shared with another commit (empties): copy before writing
+				fs := append([]fileIn{}, cs[i].Files...)
+				fs[j].Exec = true
+				cs[i].Files = fs
+			}
+		}
+	}
+}
+
 func genPipe(c *Config, kind string) []commitIn {
 	switch kind {
+	case "octo":
+		// octopus merges of 3..7 parents whose parent branches have been idle for different lengths (arms of 1..3
+		// commits, 1-2 roots, sometimes a further head or a two-parent merge inside an arm)
+		oo := synth.OctoOpts{Roots: 1 + c.Rng.Intn(2), Merges: 1 + c.Rng.Intn(2), MinPar: 3, MaxPar: 7, MaxArm: 1 + c.Rng.Intn(3),
+			MaxTail: 1 + c.Rng.Intn(2), ExtraHead: c.Rng.Intn(3) == 0, SubMerge: c.Rng.Intn(3) == 0}
+		if c.Rng.Intn(2) == 0 {
+			oo.MinPar = 3 + c.Rng.Intn(5)
+			oo.MaxPar = oo.MinPar
+		}
+		o := synth.GenOpts{Authors: 1 + c.Rng.Intn(3), Paths: 1 + c.Rng.Intn(3), MergeAddsPr: []int{0, 2, 3}[c.Rng.Intn(3)]}
+		return fromHist(synth.GenHistShape(c.Rng, synth.GenOctopusShape(c.Rng, oo), o))
 	case "hist", "hist-single":
 		o := synth.GenOpts{MaxCommits: 4 + c.Rng.Intn(9), SingleHead: kind == "hist-single", Authors: 1 + c.Rng.Intn(3), Paths: 1 + c.Rng.Intn(3), MergeAddsPr: []int{0, 2, 3}[c.Rng.Intn(3)]}
 		return fromHist(synth.GenHist(c.Rng, o))
@@ -933,6 +1298,112 @@ func genPipe(c *Config, kind string) []commitIn {
 	return cs
 }
 
+// optField reads an optional integer field of a replayed case line.
+func optField(cs Sx, name string) int {
+	if f, ok := cs.Field(name); ok && len(f.List) > 1 {
+		return f.List[1].Int()
+	}
+	return 0
+}
+
+// drawHib draws a hibernation distance: 0 in half of the cases, otherwise 1..4.
+func drawHib(c *Config) int {
+	if c.Rng.Intn(2) == 0 {
+		return 0
+	}
+	return 1 + c.Rng.Intn(4)
+}
+
+// drawPr: PrintActions / DumpPlan are switched on in one case out of eight.
+func drawPr(c *Config) int {
+	if c.Rng.Intn(8) == 0 {
+		return 1 + c.Rng.Intn(3)
+	}
+	return 0
+}
+
+// boundary values: every size threshold one can think of in line / commit counting (2^8, 2^10, 2^15, 2^16) at c-1, c, c+1
+var bigCounts = []int{255, 256, 257, 1023, 1024, 1025, 32767, 32768, 32769, 65535, 65536, 65537, 100000}
+
+// directScale: LinesStatsCalculator.Consume on large inputs - edits of 2^k-1, 2^k, 2^k+1 lines, inserted / deleted
+// files of that many lines, and long scripts whose counts are periodic with periods 2^k and 2^k+-1.
+func directScale(c *Config) {
+	counts := bigCounts
+	if c.Thorough() {
+		counts = append(append([]int{}, bigCounts...), 1<<20-1, 1<<20, 1<<20+1)
+	}
+	for i, x := range counts {
+		y := counts[(i*7+3)%len(counts)]
+		// a change block deleting x and inserting y lines, between two equal runs; a pure deletion; a pure insertion
+		runDirect(c, "direct-scale", false, []dchange{
+			{kind: "mod", name: 0, diffs: [][2]int{{0, 1}, {2, x}, {1, y}, {0, 2}}},
+			{kind: "mod", name: 1, diffs: [][2]int{{2, x}, {0, 3}, {1, x}}},
+			{kind: "mod", name: 2, diffs: [][2]int{{1, x}}},
+			{kind: "mod", name: 3, diffs: [][2]int{{0, 5}, {2, x}}}})
+		runDirect(c, "direct-scale", false, []dchange{{kind: "ins", name: 0, n: x, fin: i%2 == 0}, {kind: "del", name: 1, n: x, fin: i%3 != 0},
+			{kind: "ins", name: 2, n: -1}, {kind: "mod", name: 3, diffs: [][2]int{{2, y}, {1, x}}}})
+	}
+	lens := []int{1000, 10000}
+	if c.Thorough() {
+		lens = []int{1000, 10000, 100000, 1000000}
+	}
+	for _, n := range lens {
+		for _, period := range []int{2, 7, 8, 9, 63, 64, 65} {
+			// canonical: equal, delete, insert, equal, insert, equal, delete, ... with counts 1 + (i mod period)
+			var ds [][2]int
+			pat := []int{0, 2, 1, 0, 1, 0, 2}
+			for i := 0; i < n; i++ {
+				ds = append(ds, [2]int{pat[i%len(pat)], 1 + i%period})
+			}
+			runDirect(c, "direct-scale-long", false, []dchange{{kind: "mod", name: 0, diffs: ds}})
+			if n > 10000 {
+				break
+			}
+		}
+	}
+}
+
+// scaleCases: the long histories.  Quick: 10^3 merge commits (1100 diamonds: more than 2^10 merges), 10^4 linear
+// commits, 1000 branches alive, chains of octopus merges under hibernation; thorough: 10^4 merges, 10^5 linear commits.
+func scaleCases(c *Config) {
+	type sc struct {
+		kind string
+		o    pipeOpts
+		sh   shape
+	}
+	cat := func(xs ...[]seg) []seg {
+		var r []seg
+		for _, x := range xs {
+			r = append(r, x...)
+		}
+		return r
+	}
+	cases := []sc{
+		{"scale-diamonds", pipeOpts{ren: true}, shape{au: 7, tk: 64, segs: segsOf("dia", 1100, 0)}},
+		{"scale-diamonds-mixed", pipeOpts{cec: false, ren: true, hib: 1}, shape{au: 3, tk: 257, segs: segsOf("dia", 1030, 3)}},
+		{"scale-linear", pipeOpts{ren: false}, shape{au: 1, tk: 3000, segs: segsOf("lin", 10000, 0)}}, // 3000 commits of one developer in one tick
+		{"scale-comb", pipeOpts{cec: true, ren: true, hib: 2}, shape{au: 5, tk: 100, segs: segsOf("comb", 1000, 0)}},
+		{"scale-octo", pipeOpts{ren: true, hib: 3}, shape{au: 4, tk: 33, segs: segsOf("octo", 150, 7)}},
+		{"scale-octo-wide", pipeOpts{cec: true, ren: true, hib: 4}, shape{au: 2, tk: 65, segs: cat(segsOf("octo", 12, 33), segsOf("octo", 6, 65))}},
+		{"scale-mixed", pipeOpts{cec: true, ren: true, hib: 1}, shape{au: 7, tk: 31,
+			segs: cat(segsOf("lin", 100, 0), segsOf("dia", 300, 3), segsOf("octo", 40, 4), segsOf("comb", 100, 0), segsOf("dia", 300, 1), segsOf("lin", 300, 0))}},
+	}
+	if c.Thorough() {
+		cases = append(cases,
+			sc{"scale-diamonds", pipeOpts{ren: true}, shape{au: 7, tk: 1000, segs: segsOf("dia", 10000, 0)}},
+			sc{"scale-diamonds-mixed", pipeOpts{cec: false, ren: true, hib: 4}, shape{au: 3, tk: 1025, segs: segsOf("dia", 10000, 3)}},
+			sc{"scale-linear", pipeOpts{ren: true, hib: 2}, shape{au: 1, tk: 70000, segs: segsOf("lin", 100000, 0)}}, // more than 2^16 commits of one developer in one tick
+			sc{"scale-comb", pipeOpts{ren: true, hib: 0}, shape{au: 5, tk: 100, segs: segsOf("comb", 5000, 0)}},
+			sc{"scale-comb", pipeOpts{cec: true, ren: true, hib: 3}, shape{au: 5, tk: 100, segs: segsOf("comb", 3000, 0)}},
+			sc{"scale-octo", pipeOpts{ren: true, hib: 2}, shape{au: 4, tk: 129, segs: segsOf("octo", 2500, 5)}},
+			sc{"scale-mixed", pipeOpts{ren: false, hib: 2}, shape{au: 2, tk: 511,
+				segs: cat(segsOf("dia", 2100, 1), segsOf("lin", 5000, 0), segsOf("octo", 1100, 3), segsOf("comb", 1100, 0), segsOf("dia", 2100, 2))}})
+	}
+	for i := range cases {
+		runScale(c, cases[i].kind, cases[i].o, &cases[i].sh)
+	}
+}
+
 func main() {
 	log.SetOutput(ioutil.Discard)
 	only := flag.String("only", "", "restrict the generators to one kind (debugging)")
@@ -953,21 +1424,24 @@ func main() {
 					chs = append(chs, parseDChange(it))
 				}
 				runDirect(c, kind, merge.List[1].Int() != 0, chs)
-			} else {
-				cec, _ := cs.Field("cec")
-				ren, _ := cs.Field("ren")
-				var cis []commitIn
-				for _, it := range items.Args() {
-					cis = append(cis, parseCommit(it))
-				}
-				runPipe(c, kind, cec.List[1].Int() != 0, ren.List[1].Int() != 0, cis)
+				continue
 			}
+			o := pipeOpts{cec: optField(cs, "cec") != 0, ren: optField(cs, "ren") != 0, hib: optField(cs, "hib"), pr: optField(cs, "pr")}
+			if mode.List[1].Atom == "scale" {
+				runScale(c, kind, o, parseShape(cs, items))
+				continue
+			}
+			var cis []commitIn
+			for _, it := range items.Args() {
+				cis = append(cis, parseCommit(it))
+			}
+			runPipe(c, kind, o, cis)
 		}
 		return
 	}
 	want := func(k string) bool { return *only == "" || *only == k }
 
-	// 1. direct: exhaustive small scripts, then random arbitrary and canonical change lists
+	// 1. direct: exhaustive small scripts, then random arbitrary and canonical change lists, then large inputs
 	if want("direct") {
 		if c.Thorough() {
 			exhaustiveScripts(c, 5, []int{1, 2, 3}, 64)
@@ -983,24 +1457,48 @@ func main() {
 			runDirect(c, "direct-canonical", c.Rng.Intn(10) == 0, genDirect(c, true))
 		}
 	}
+	if want("direct") || want("directscale") {
+		directScale(c)
+	}
 	// 2. real pipeline runs
 	if want("pipe") {
 		for n := 1; n <= 4; n++ {
-			exhaustiveDags(c, n)
+			exhaustiveDags(c, n, 0)
 		}
+		// every four-commit history with a three-parent commit again under hibernation (distance 1: a three-parent
+		// merge is the smallest whose first replay is followed by a hibernate action)
+		exhaustiveDags(c, 4, 1)
 		if c.Thorough() {
-			exhaustiveDags(c, 5)
+			exhaustiveDags(c, 5, 0)
+			exhaustiveDags(c, 5, 1)
+			exhaustiveDags(c, 5, 2)
 		}
 		for _, k := range []struct {
 			kind string
 			q, t int
-		}{{"hist", 1200, 12000}, {"hist-single", 800, 8000}, {"empties", 1200, 12000}, {"linear", 1000, 10000}} {
+		}{{"hist", 1200, 12000}, {"hist-single", 800, 8000}, {"empties", 1200, 12000}, {"linear", 800, 10000}, {"octo", 500, 8000}, {"shape", 500, 8000}} {
 			for i := c.Count(k.q, k.t); i > 0; i-- {
+				o := pipeOpts{cec: c.Rng.Intn(2) == 0, ren: c.Rng.Intn(2) == 0, hib: drawHib(c), pr: drawPr(c)}
+				if k.kind == "shape" {
+					runScale(c, "shape", o, genShape(c))
+					continue
+				}
 				cs := genPipe(c, k.kind)
-				cec := c.Rng.Intn(2) == 0
-				ren := c.Rng.Intn(2) == 0
-				runPipe(c, k.kind, cec, ren, cs)
+				if k.kind != "linear" && c.Rng.Intn(6) == 0 {
+					skewTicks(c, cs)
+				}
+				if k.kind != "octo" && c.Rng.Intn(5) == 0 {
+					flipModes(c, cs)
+				}
+				if k.kind == "octo" && o.hib == 0 && c.Rng.Intn(3) > 0 {
+					o.hib = 1 + c.Rng.Intn(4)
+				}
+				runPipe(c, k.kind, o, cs)
 			}
 		}
+	}
+	// 3. long histories
+	if want("pipe") || want("scale") {
+		scaleCases(c)
 	}
 }
